@@ -111,6 +111,19 @@ theorem gen_wrappers : Gen.C19.wrappers =
      ("WeekDay", "helper.weekday(#0)"), ("YYYYMMDD", "helper.yyyymmdd(#0)"),
      ("YmdNow", "helper.yyyymmdd(Now())"), ("Ymdhms", "helper.ymdhms(#0)")] := by decide
 
+/-- the exported surface of the package is the known one: no exported function, method or type
+    through which a helper for another location (or any other object sharing state with the UTC
+    helper) could be created.  The harness can only call what exists; a new exported constructor
+    shows up here first. -/
+theorem gen_exported_api : Gen.C19.exportedApi =
+    ["func DateTime", "func GetDateUnit", "func GetDateUnitNow", "func GetDelta", "func GetFiveMinUnit",
+     "func GetMinUnit", "func GetYmdTime", "func HHMM", "func HHMMSS", "func IsSyncTime", "func LPadInt",
+     "func NewDateFormat", "func Now", "func SetDelta", "func SetServerTime", "func StartSyncTime",
+     "func StopSyncTime", "func SystemNow", "func TimeStamp", "func TimeStampNow", "func WeekDay",
+     "func YYYYMMDD", "func YmdNow", "func Ymdhms", "method DateFormat.Format", "method DateFormat.FormatTime",
+     "method DateFormat.Parse", "method DateFormat.ToInt", "type DateFormat", "type DateTimeHelper",
+     "type Day"] := by decide
+
 /-- the package-level variables are the known ones: the helper and its registry, the clock
     delta and sync-time state, the two constant tables — nothing a helper could cache in -/
 theorem gen_pkg_vars : Gen.C19.pkgVars =
